@@ -129,7 +129,7 @@ def run_check(spec, tier, seed, log=print):
         uniq.append(c)
     cands = [c for c in uniq if c["origin"] != "witness"]
     wits = [c for c in uniq if c["origin"] == "witness"]
-    room = max(0, MAX_REPLAY - len(cands))
+    room = max(0, min(MAX_REPLAY, getattr(spec, "max_witness_replays", MAX_REPLAY)) - len(cands))
     unreplayed_witnesses = max(0, len(wits) - room)
     to_replay = cands[:MAX_REPLAY] + wits[:room]
     unreplayed_candidates = max(0, len(cands) - MAX_REPLAY)
